@@ -25,6 +25,25 @@ reg(id="C20",
     ])
 
 
+BE_TB = ["hand model Model/BeServer.v + Model/Transport.v of handle_request and the receive paths (tied to the code by the correspondence family be on every run)",
+         "Spec/BeSpec.v: my transcription of the request table (reply kinds, gates, validity of handler invocations)"]
+BE_ASSUME = ["Linux stream-socket/SCM_RIGHTS delivery as modelled in Model/Transport.v (a recvmsg never crosses a segment boundary; descriptors ride on the first byte of a segment)",
+             "application handlers are arbitrary (scripted outcomes in the executable model; the theorems quantify over them)",
+             "RAII: a File that goes out of scope is closed"]
+BE_RULE = ("family be: request histories fed to the real BackendReqHandler by a raw socket peer - structured mostly-valid "
+           "histories with lattice/random field values after a (partial) negotiation, a malformed stream (grammar-aware mutations: "
+           "size, flags, version, code, truncated/extended bodies, 0..40 descriptors, body split off with descriptors), and all "
+           "depth-2 histories over a 12-request alphabet x NEED_REPLY x handler outcome after three negotiation prefixes; "
+           "non-trivial = at least one handler invocation; distinct = distinct (case, observation) pairs")
+
+reg(id="C04", props="Props/C04.v", proof_files=["Proofs/BeProofs.v", "Proofs/TableProofs.v"], families=[Be()],
+    rule=BE_RULE, trusted_base=BE_TB, assumptions=BE_ASSUME)
+reg(id="C07", props="Props/C07.v", proof_files=["Proofs/BeProofs.v", "Proofs/TableProofs.v"], families=[Be()],
+    rule=BE_RULE, trusted_base=BE_TB + ["Spec/Gates.v: operation -> gating feature table"], assumptions=BE_ASSUME)
+reg(id="C09", props="Props/C09.v", proof_files=["Proofs/BeProofs.v"], families=[Be()],
+    rule=BE_RULE + "; descriptors are distinct memfds identified by inode; leak = known inodes still open after dropping server, handler state and peer, plus growth of /proc/self/fd",
+    trusted_base=BE_TB, assumptions=BE_ASSUME + ["the kernel disposes of SCM_RIGHTS descriptors that were never received when the socket is closed"])
+
 reg(id="BE-DEV",
     props="Props/C20.v",
     families=[Be()],
